@@ -622,6 +622,24 @@ def extract_frame_const_uses(m):
     return out
 
 
+def extract_codec_calls(mods):
+    """every `<expr>.encode(...)` / `<expr>.decode(...)` call on a value (not on a pamqp module): the codec
+    name and error handling the model's strict UTF-8 stands for"""
+    out = []
+    for m in mods:
+        if m.name == 'commands':
+            continue
+        for s in m.scopes:
+            for n in s['nodes']:
+                if isinstance(n, ast.Call) and isinstance(n.func, ast.Attribute) and n.func.attr in ('encode', 'decode'):
+                    recv = n.func.value
+                    if isinstance(recv, ast.Name) and (recv.id in m.aliases or recv.id in ('encode', 'decode', 'codecs')):
+                        continue
+                    args = ', '.join([usrc(a) for a in n.args] + ['%s=%s' % (k.arg, usrc(k.value)) for k in n.keywords])
+                    out.append([fn_label(s), n.func.attr, args])
+    return out
+
+
 def extract_tables(M):
     dec, enc, com, frm = M['decode'], M['encode'], M['common'], M['frame']
     mods = [M[k] for k in sorted(M)]
@@ -637,6 +655,7 @@ def extract_tables(M):
         'exceptSites': guarded('exceptSites', lambda e: [{'fn': crash(e), 'covers': [], 'catches': [], 'action': 'other'}],
                                extract_except_sites, mods),
         'frameConstUses': guarded('frameConstUses', lambda e: [[crash(e), '']], extract_frame_const_uses, frm),
+        'codecCalls': guarded('codecCalls', lambda e: [[crash(e), '', '']], extract_codec_calls, mods),
     }
 
 
@@ -652,6 +671,7 @@ def emit_tables(d):
                   % (lstr(x['fn']), llist(lstr(c) for c in x['covers']), llist(lstr(c) for c in x['catches']),
                      lstr(x['action'])) for x in d['exceptSites']))
     body += ldef('frameConstUses', '(String × String)', (lpair(lstr(k), lstr(v)) for k, v in d['frameConstUses']))
+    body += ldef('codecCalls', '(String × String × String)', ('(%s, %s, %s)' % (lstr(a), lstr(b), lstr(c)) for a, b, c in d['codecCalls']))
     return lfile('/repo/pamqp/{decode,encode,common,frame,header,base,heartbeat}.py', body)
 
 
